@@ -694,3 +694,133 @@ end
 
 end
 end BacVerif.C06
+
+namespace BacVerif.C06
+open BacVerif BacVerif.Route
+
+theorem originate_routed (lan : Nat) (o : Station) (dd : Dadr) (m1 : Mac) (er : Bool) (prio : Nat) (data : Bytes)
+    (hgb : dd ≠ .gb) (hdl : dd.net ≠ lan) (hoc : o.cache.get (o.adapter lan).net dd.net = some m1) :
+    originPackets (originate (o.st lan) dd.toAddr er prio data).2 =
+      [⟨lan, o.mac, .to m1, rtp (some dd) none none er prio data 255⟩] := by
+  have hloc : (o.st lan).node.loc = some (o.adapter lan) := station_loc lan o
+  have hnet : (some dd.net == (o.adapter lan).net) = false := by
+    simp only [Station.adapter]
+    cases o.knowsNet <;> simp [hdl]
+  have hfp : findPath (o.st lan).cache (o.st lan).node.adapters dd.net = some (o.adapter lan, m1) := by
+    simp [Station.st, Station.tnode, findPath, hoc]
+  cases dd with
+  | gb => exact absurd rfl hgb
+  | rs d m =>
+    simp only [Dadr.net] at hnet hfp
+    simp only [originate, Dadr.toAddr, hloc, hnet, hfp]
+    simp [Station.st, Station.tnode, originPackets, rtp, Station.adapter]
+  | rb d =>
+    simp only [Dadr.net] at hnet hfp
+    simp only [originate, Dadr.toAddr, hloc, hnet, hfp]
+    simp [Station.st, Station.tnode, originPackets, rtp, Station.adapter]
+
+/-- deliveries of a packet that station `o` of the root network addresses to `dd` -/
+def routedDeliveries (T : NetTree) (o : Station) (dd : Dadr) (er : Bool) (prio : Nat) (data : Bytes) :
+    List Delivery :=
+  (originPackets (originate (o.st T.lan) dd.toAddr er prio data).2).flatMap (deliverAll T.nodes)
+
+/-- remote station / remote broadcast for a network elsewhere in the tree, caches consistent
+    with the tree on the path: delivered exactly to the addressed stations of that network -/
+theorem tree_routed (T : NetTree) (o : Station) (dd : Dadr) (m1 : Mac) (er : Bool) (prio : Nat) (data : Bytes)
+    (ho : o ∈ T.stations) (hnd : T.lans.Nodup) (hwf : T.wf [] = true) (hh : T.height ≤ 255)
+    (hgb : dd ≠ .gb) (hd : dd.net ∈ T.routers.lans) (hm1 : T.routers.nextHop dd.net = some m1)
+    (hoc : o.cache.get (o.adapter T.lan).net dd.net = some m1)
+    (hwarm : T.warm dd.net = true)
+    (htgt : ∀ m, dd = .rs dd.net m → ∃ t ∈ T.stationsOn dd.net, t.mac = m) :
+    routedDeliveries T o dd er prio data =
+      rtExpect dd.net (lastLeg dd) (T.lan, o.mac) er prio data (T.stationsOn dd.net) := by
+  match T with
+  | .mk lan sts rs =>
+    have hT := HT.whole (.mk lan sts rs)
+    simp only [NetTree.lans, List.nodup_cons] at hnd
+    simp only [NetTree.routers] at hd hm1
+    have hdl : dd.net ≠ lan := fun e => hnd.1 (e ▸ hd)
+    simp only [NetTree.wf, Bool.and_eq_true, decide_eq_true_eq] at hwf
+    obtain ⟨_, _, _, hm4, hm5⟩ := macs_facts [] sts rs.upMacs hwf.1
+    have hm1mem := Routers.nextHop_mem rs dd.net m1 hm1
+    unfold routedDeliveries
+    simp only [NetTree.lan] at hoc ⊢
+    rw [originate_routed lan o dd m1 er prio data hgb hdl hoc]
+    simp only [List.flatMap_cons, List.flatMap_nil, List.append_nil]
+    rw [deliverAll_attached]
+    simp only []
+    rw [hT.root hnd.1, List.nil_append, List.filter_append, List.flatMap_append]
+    have hst0 : (stationEntries lan sts).filter
+        (fun x => macOk ⟨lan, o.mac, .to m1, rtp (some dd) none none er prio data 255⟩ x.2) = [] := by
+      apply List.filter_eq_nil_iff.mpr
+      intro x hx
+      simp only [stationEntries, List.mem_map] at hx
+      obtain ⟨s, hs, rfl⟩ := hx
+      have : s.mac ≠ m1 := fun e => hm5 s hs (e ▸ hm1mem)
+      simp [macOk, Station.adapter, this]
+    rw [hst0]
+    simp only [List.flatMap_nil, List.nil_append]
+    simp only [NetTree.stationsOn, hdl, if_false] at htgt ⊢
+    simp only [NetTree.height] at hh
+    simp only [NetTree.warm] at hwarm
+    have := Routers.rt none er prio data rs _ lan o.mac 255 dd none m1 (hT.routers hnd.1) hnd.1 hnd.2 hwf.2 hm4
+      (fun s e => by cases e) (by simpa using hnd.1) hgb hd hm1 hwarm hh htgt
+    simpa using this
+
+end BacVerif.C06
+
+namespace BacVerif.C06
+open BacVerif BacVerif.Route
+
+mutual
+theorem NetTree.stationsOn_nodup (S : NetTree) (up : List Mac) (hwf : S.wf up = true) (d : Nat) :
+    ((S.stationsOn d).map (·.mac)).Nodup := by
+  match S with
+  | .mk lan sts rs =>
+    simp only [NetTree.wf, Bool.and_eq_true, decide_eq_true_eq] at hwf
+    obtain ⟨_, _, h3, _, _⟩ := macs_facts up sts rs.upMacs hwf.1
+    simp only [NetTree.stationsOn]
+    split
+    · exact h3
+    · exact Routers.stationsOn_nodup rs hwf.2 d
+theorem Routers.stationsOn_nodup (rs : Routers) (hwf : rs.wf = true) (d : Nat) :
+    ((rs.stationsOn d).map (·.mac)).Nodup := by
+  match rs with
+  | .nil => simp [Routers.stationsOn]
+  | .cons ua um la c ds rest =>
+    simp only [Routers.wf, Bool.and_eq_true] at hwf
+    simp only [Routers.stationsOn]
+    split
+    · exact Downs.stationsOn_nodup ds hwf.1.2 d
+    · exact Routers.stationsOn_nodup rest hwf.2 d
+theorem Downs.stationsOn_nodup (ds : Downs) (hwf : ds.wf = true) (d : Nat) :
+    ((ds.stationsOn d).map (·.mac)).Nodup := by
+  match ds with
+  | .nil => simp [Downs.stationsOn]
+  | .cons aid mac sub rest =>
+    simp only [Downs.wf, Bool.and_eq_true] at hwf
+    simp only [Downs.stationsOn]
+    split
+    · exact NetTree.stationsOn_nodup sub [mac] hwf.1 d
+    · exact Downs.stationsOn_nodup rest hwf.2 d
+end
+
+theorem filter_mac_single (l : List Station) (t : Station) (hn : (l.map (·.mac)).Nodup) (ht : t ∈ l) :
+    l.filter (fun s => s.mac == t.mac) = [t] := by
+  induction l with
+  | nil => simp at ht
+  | cons s l ih =>
+    simp only [List.map_cons, List.nodup_cons] at hn
+    simp only [List.mem_cons] at ht
+    rcases ht with rfl | ht
+    · have : l.filter (fun s => s.mac == t.mac) = [] := by
+        apply List.filter_eq_nil_iff.mpr
+        intro s hs
+        simp only [beq_iff_eq]
+        intro e
+        exact hn.1 (e ▸ List.mem_map_of_mem hs)
+      simp [List.filter_cons, this]
+    · have hne : s.mac ≠ t.mac := fun e => hn.1 (e ▸ List.mem_map_of_mem ht)
+      simp [List.filter_cons, hne, ih hn.2 ht]
+
+end BacVerif.C06
